@@ -39,7 +39,10 @@ class Ctx:
         self.tier = tier
         self.seed = seed
         self.t0 = time.time()
-        self.work = os.path.join(WORK, prop)
+        alt = os.environ.get("VERIF_REPO")
+        # (development aid: a run against another checkout keeps its scratch files apart, so that it can run next to a
+        # run of the same check against /repo)
+        self.work = os.path.join(WORK, prop) if not alt else os.path.join(WORK, "alt-" + os.path.abspath(alt).strip("/").replace("/", "_"), prop)
         shutil.rmtree(self.work, ignore_errors=True)
         os.makedirs(self.work, exist_ok=True)
         self.violations = []      # list of dicts (each becomes a replay file)
